@@ -518,10 +518,13 @@ func rsRpcResult(reqID uint64, payload []byte) []byte {
 // ---- the client under test -----------------------------------------------------------------------------
 
 type rsStore struct {
-	failNext int // the next so many Store calls fail (plan step fs:<n>)
-	mu       sync.Mutex
-	s        *session.Session
-	log      *rsLog
+	failNext  int           // the next so many Store calls fail (plan step fs:<n>)
+	slowNext  int           // the next so many Store calls are slow (plan step ds:<ms>:<n>) …
+	slowFor   time.Duration // … by this much
+	maxSlowed time.Duration // the longest delay configured in this scenario (the scenario waits that long at its end)
+	mu        sync.Mutex
+	s         *session.Session
+	log       *rsLog
 }
 
 func (st *rsStore) Load() (*session.Session, error) {
@@ -540,6 +543,17 @@ func (st *rsStore) Store(x *session.Session) error {
 		return fmt.Errorf("injected session store failure")
 	}
 	c := *x
+	var d time.Duration
+	if st.slowNext > 0 {
+		st.slowNext--
+		d = st.slowFor
+	}
+	st.mu.Unlock()
+	if d > 0 {
+		// a slow store (a network file system, a database): the write lands when the call returns
+		time.Sleep(d)
+	}
+	st.mu.Lock()
 	st.s = &c
 	st.mu.Unlock()
 	st.log.add("W:%d", x.Salt)
@@ -733,6 +747,25 @@ func (r *rsRun) item(it string) (body []byte, content bool, desc string, ok bool
 			code = 17
 		}
 		return rsCat(rsU32(rsCrcBadMsg), rsU64(f.Mid), rsU32(f.Seq), rsU32(code)), false, fmt.Sprintf("badmsg(%d)", f.Mid), true
+	case strings.HasPrefix(it, "E"): // rpc_error as the answer to caller i's latest request, whatever result its call declares
+		i := atoi(it[1:])
+		f, found := r.srv.latestReq(i)
+		if !found {
+			return nil, false, "", false
+		}
+		payload, val := rsResult("e", rsTagBase+i)
+		return rsRpcResult(f.Mid, payload), true, fmt.Sprintf("res(%d/%s)", f.Mid, val), true
+	case it == "0": // a message with an empty body (inside a container: a member of zero bytes)
+		return []byte{}, false, "trunc", true
+	case it == "ub": // a content-related message (an object the client does not know) with a body of more than 2^20 bytes
+		return rsCat(rsU32(0xdeadbeef), make([]byte, 1<<20+64)), true, "unk", true
+	case it == "kb": // a well-formed msgs_ack naming 140000 ids: a frame of more than 2^20 bytes
+		b := rsCat(rsU32(rsCrcAck), rsU32(rsCrcVector), rsU32(140000))
+		ids := make([]byte, 8*140000)
+		for j := 0; j < 140000; j++ {
+			binary.LittleEndian.PutUint64(ids[8*j:], uint64(4*j+4))
+		}
+		return append(b, ids...), false, "ack", true
 	case strings.HasPrefix(it, "tr"): // an rpc_result (for an unknown request) cut to this many bytes
 		n := atoi(it[2:])
 		b := rsRpcResult(0x0123456789abcdef, rsCat(rsU32(rsCrcPong), rsU64(1), rsU64(2)))
@@ -913,6 +946,18 @@ func (r *rsRun) runPlan(plan string) string {
 			if !r.srv.resend() {
 				return "bad-item:="
 			}
+		case strings.HasPrefix(st, "ds:"): // ds:<ms>:<n> — the next n writes to the session store take this long
+			parts := strings.Split(st[3:], ":")
+			if len(parts) != 2 {
+				return "bad-item:" + st
+			}
+			r.store.mu.Lock()
+			r.store.slowFor = time.Duration(atoi(parts[0])) * time.Millisecond
+			r.store.slowNext += atoi(parts[1])
+			if r.store.slowFor > r.store.maxSlowed {
+				r.store.maxSlowed = r.store.slowFor
+			}
+			r.store.mu.Unlock()
 		case strings.HasPrefix(st, "f"): // f<sel>:<n> — the next n writes of messages of that kind fail
 			parts := strings.Split(st[1:], ":")
 			if len(parts) != 2 {
@@ -995,8 +1040,11 @@ func rsScenario(kindsCSV, plan string) (trace string, note string) {
 			note = "calls-did-not-return"
 		}
 	}
-	// quiescence: give the receive loop time to emit the acknowledgements it owes
-	time.Sleep(3 * time.Millisecond)
+	// quiescence: give the receive loop time to emit the acknowledgements it owes, and a slow store time to finish
+	r.store.mu.Lock()
+	slow := r.store.maxSlowed
+	r.store.mu.Unlock()
+	time.Sleep(3*time.Millisecond + slow + slow/4)
 	r.rsWaitAcks(300 * time.Millisecond)
 	r.finish()
 	ev := r.log.snapshot()
